@@ -54,6 +54,7 @@ func graceEngine(c *runCtx) error {
 	defer sh.Close()
 	nextCnr := 100
 	nEng := 0
+	c.independent = true
 	exec := func(ops []string) {
 		for _, line := range ops {
 			o := parseOp(line)
